@@ -17,9 +17,11 @@ LAYOUT
                "auto": {"cg": bool, "aaitp": bool, "aagro": bool},              listed in --auto
                "explicit": bool} ]                                              given with --mol
   foreign : [ SPECIES … ]  (not in the system; all three files written and listed)
-  extras  : [ {"path": rel, "kind": "txt" | "othergro" | "sysgro" | "badtop"} ]
+  extras  : [ {"path": rel, "kind": "txt" | "othergro" | "sysgro" | "badtop" (+ "variant")} ]
+            badtop = a candidate .itp that is NOT a molecule topology (force-field include, empty file, only
+            #include lines, a [ system ] file, no [ atoms ]): an ordinary distractor, inside the quantifier
   sys : rel path of the system file; sys_in_auto : bool
-  ambiguous : None | "dup-start" | "two-coords" | "two-endtops" | "shared-end" | "bad-known"
+  ambiguous : None | "dup-start" | "two-coords" | "two-endtops" | "shared-end" | "bad-known" | "corrupt-top"
               (outside the quantifier: run, compared with the model, reported — not judged)
   exclude : [species names] | None
 """
@@ -46,16 +48,29 @@ RULE = ("discover: generated systems (2-5 species incl. 1-/2-atom/multi-residue)
         "species, any subset of {start topology, end topology, end coordinates} present (incl. start-only = solvent-like, "
         "start+end topology without coordinates), species given with --mol, --exclude lists, distractors (.txt/.mdp, the "
         "system file itself, unrelated .gro, complete file triples of species not in the system, upper-case extensions, "
-        "multi-dot names, sub-directories), semantic or opaque file names; every permutation of the two candidate sets "
+        "multi-dot names, sub-directories, candidate .itp files that are not molecule topologies: force-field include / empty / "
+        "blank / only #include / only comments / [ system ] file / no [ atoms ]; p=.35 per directory), semantic or opaque "
+        "file names; every permutation of the two candidate sets "
         "when <= 4x3 else identity/reverse/sorted + random ones; subprocess runs under PYTHONHASHSEED with shuffled "
         "argument lists. cli: main() with --mol/--auto/--exclude/--scale/-o combinations, relative/absolute/sub-directory "
-        "input paths, vs the library workflow, byte comparison; shipped BMIM/BF4. Ambiguous directories and unparseable "
-        "topologies are run and reported, not judged. Non-trivial = discover/cli case with >= 2 candidate topologies; "
+        "input paths, vs the library workflow, byte comparison; shipped BMIM/BF4. Ambiguous directories, --mol of a species not in the "
+        "system and CORRUPT molecule topologies (ValueError) are run, compared with the model and reported, not judged. Non-trivial = discover/cli case with >= 2 candidate topologies; "
         "distinct by canonical hash.")
 
 ERR = {"SystemError": 1, "ValueError": 2, "TypeError": 3, "OSError": 4, "IOError": 4, "KeyError": 5, "IndexError": 6}
 STEPS = 15
-STRICT_UNPARSEABLE_TOP = False     # a candidate .itp without [ moleculetype ] makes discovery raise IOError: reported only
+BADTOPS = {      # candidate topology files that are not molecule topologies (MoleculeTop raises OSError)
+    "ff": "[ defaults ]\n1 1 no 1.0 1.0\n\n[ atomtypes ]\nP1 72.0 0.0 A 0.0 0.0\nC1 72.0 0.0 A 0.0 0.0\n\n"
+          "[ nonbond_params ]\nP1 P1 1 0.21558E-00 0.23238E-02\n",
+    "empty": "",
+    "blank": "\n\n   \n",
+    "include": '#include "martini_v2.2.itp"\n#include "ions.itp"\n',
+    "comments": "; force field notes\n; nothing else in here\n",
+    "system": "[ system ]\nsome box\n\n[ molecules ]\nMA 10\n",
+    "noatoms": "[ moleculetype ]\nGHOST 1\n",
+    "emptyatoms": "[ moleculetype ]\nGHOST 1\n\n[ atoms ]\n; none\n",
+}
+BADTOP_NAMES = ["forcefield.itp", "martini_v2.2.itp", "ions.ITP", "topol_includes.itp", "ff.bonded.itp", "tops/aminoacids.itp"]
 
 
 def _quiet():
@@ -122,8 +137,9 @@ def gen_layout(rng, desc, for_cli=False, ambiguous=None, d9=None, badtop=False):
                        "kind": "txt"})
     if rng.random() < 0.4:
         extras.append({"path": "old_frame.gro", "kind": "othergro"})
-    if badtop:
-        extras.append({"path": "forcefield.itp", "kind": "badtop"})
+    if badtop or rng.random() < 0.35:
+        for path in rng.sample(BADTOP_NAMES, rng.choice([1, 1, 2])):
+            extras.append({"path": path, "kind": "badtop", "variant": rng.choice(sorted(BADTOPS))})
     seen = set()
     extras = [e for e in extras if not (e["path"] in seen or seen.add(e["path"]))]
     layout = {"style": style, "species": species, "foreign": foreign, "extras": extras,
@@ -140,6 +156,10 @@ def gen_layout(rng, desc, for_cli=False, ambiguous=None, d9=None, badtop=False):
         species[k]["explicit"] = False
         species[k]["auto"]["cg"] = True
         layout["dup"] = {"of": k, "path": "copy_of_start.itp"}
+    elif ambiguous == "corrupt-top":
+        # a CORRUPT molecule topology (malformed [ atoms ] line): MoleculeTop raises ValueError, which the
+        # repaired discovery deliberately does not swallow
+        extras.append({"path": "broken_molecule.itp", "kind": "corrupt"})
     elif ambiguous == "bad-known":
         # --mol names a species that is NOT in the system: System(reference, top) raises IOError
         if not foreign:
@@ -198,8 +218,10 @@ def materialize(desc, layout, root):
         elif e["kind"] == "othergro":
             mgrgen.write_gro(ap(e["path"]), "something else", [(1, "ZZZ", "Q1", [0.1, 0.2, 0.3]),
                                                                (1, "ZZZ", "Q2", [0.2, 0.2, 0.3])], [2.0, 2.0, 2.0])
+        elif e["kind"] == "corrupt":
+            open(ap(e["path"]), "w").write("[ moleculetype ]\nBRK 1\n\n[ atoms ]\n1 C one RES A 1 0.0 12.0\n")
         elif e["kind"] == "badtop":
-            open(ap(e["path"]), "w").write("[ defaults ]\n1 1 no 1.0 1.0\n\n[ atomtypes ]\nP1 72.0 0.0 A 0.0 0.0\n")
+            open(ap(e["path"]), "w").write(BADTOPS[e.get("variant", "ff")])
     dup = layout.get("dup")
     if dup:
         sp, ls = desc["species"][dup["of"]], layout["species"][dup["of"]]
@@ -275,7 +297,7 @@ def generate(ctx):
         layout = gen_layout(rng, desc)
         yield {"kind": "discover", "desc": desc, "layout": layout, "perm_seed": rng.randrange(2 ** 31),
                "hashseeds": (hs_q if ctx.quick() else hs_t) if i < n_hash_dirs else []}
-    for amb in ("dup-start", "two-coords", "two-endtops", "shared-end", "bad-known"):
+    for amb in ("dup-start", "two-coords", "two-endtops", "shared-end", "bad-known", "corrupt-top"):
         for _ in range(ctx.n(3, 25)):
             desc = mgrgen.gen_system(rng, nmol_max=8, small=True)
             for s in desc["species"]:
@@ -515,7 +537,7 @@ def evaluate(ctx, case):
 
 
 def _judged(layout):
-    return layout.get("ambiguous") is None and not any(e["kind"] == "badtop" for e in layout["extras"])
+    return layout.get("ambiguous") is None
 
 
 def _eval_discover(ctx, case):
@@ -540,7 +562,10 @@ def _eval_discover(ctx, case):
                          "known": len(known), "expected": {n: sorted(i) for n, i in expected.items()},
                          "ambiguous": layout.get("ambiguous")})
         ctx.count("discover")
-        ctx.count("discover:" + (layout.get("ambiguous") or ("badtop" if not judged else "unambiguous")))
+        ctx.count("discover:" + (layout.get("ambiguous") or "unambiguous"))
+        if any(e["kind"] == "badtop" for e in layout["extras"]) and any(f.endswith(e["path"]) for e in layout["extras"]
+                                                                     if e["kind"] == "badtop" for f in tops):
+            ctx.count("discover:with-candidate-that-is-not-a-molecule-topology")
         if d9_shape:
             ctx.count("discover:start-topology-without-end-topology")
         if known:
@@ -591,9 +616,7 @@ def _eval_discover(ctx, case):
                     ctx.disagree(case, "sort_molecules warnings", r["warn"], m["warn"])
             ctx.model.ask("sortmol", sortmol_tokens(tabs, to, co, known), cb, case)
         if not judged:
-            ctx.count(f"outside-quantifier:{layout.get('ambiguous') or 'badtop'}:distinct-results-{len(results)}")
-            if layout.get("ambiguous") is None and STRICT_UNPARSEABLE_TOP and any(isinstance(x, tuple) and x and x[0] == "err" for x in results):
-                ctx.oracle_fail("sort_molecules:unparseable-candidate-topology", case, {"results": sorted(map(str, results))})
+            ctx.count(f"outside-quantifier:{layout.get('ambiguous')}:distinct-results-{len(results)}")
         elif len(results) > 1:
             ctx.oracle_fail("sort_molecules:order-dependent", case, {"distinct": len(results)})
         # real hash seeds, argument list shuffled
@@ -845,6 +868,8 @@ def _eval_shipped(ctx, case):
         for f in ("system_bmimbf4_cg.gro", "BMIM_CG.itp", "BF4_CG.itp", "BMIM_AA.gro", "BMIM_AA.itp", "BF4_AA.gro",
                   "BF4_AA.itp", "BF4_CG.gro", "SDS_AA.itp", "VTE_AA.gro", "VTE_AA.itp", "vitamin_E_CG.itp"):
             shutil.copy(D[f], os.path.join(root, f))
+        # a force-field include, as it sits next to the molecule topologies in any real directory
+        open(os.path.join(root, "martini_v2.2.itp"), "w").write(BADTOPS["ff"])
         ref = "system_bmimbf4_cg.gro"
         mols = [["BMIM_CG.itp", "BMIM_AA.gro", "BMIM_AA.itp"], ["BF4_CG.itp", "BF4_AA.gro", "BF4_AA.itp"]]
         if case["auto"]:
@@ -862,7 +887,8 @@ def _eval_shipped(ctx, case):
         ctx.count("cli:shipped-" + ("auto" if case["auto"] else "mol"))
         fails = []
         if err is not None or seen["auto_map"] is None:
-            fails.append((f"shipped:raises-{err}", {"argv": argv}))
+            fails.append((f"sort_molecules:raises-{err}" if (case["auto"] and not seen["sorted"])
+                          else f"shipped:raises-{err}", {"argv": argv}))
         else:
             got = seen["auto_map"]["species"]
             if sorted(got) != sorted(mols):
